@@ -10,12 +10,12 @@ set_option linter.unusedSimpArgs false
 namespace SwimVerif.ML
 
 /-- the frames a run of the lane writes -/
-def framesOf : St → List Op → List Frame
+def indepFramesOf : St → List Op → List Frame
   | _, [] => []
   | s, op :: rest =>
     (match (step s op).2 with
       | some (_, some f) => [f]
-      | _ => []) ++ framesOf (step s op).1 rest
+      | _ => []) ++ indepFramesOf (step s op).1 rest
 
 def Frame.isTo (r : Nat) : Frame → Bool
   | .sync r' _ _ => r' == r
